@@ -32,6 +32,38 @@ const FILL: u8 = 0xA5;
 
 /// all write paths of one attribute against the reference TLV
 fn check_attr(w: &dyn AttributeWrite, what: &str, ty: u16, value: &[u8]) -> TestResult {
+    // the header writers: 4 bytes (type, declared length), the count of bytes written, nothing beyond
+    {
+        let mut h = [0xA5u8; 9];
+        let n = w.write_header(&mut h).map_err(|e| Fail::new("c12-attr-write", format!("{}: write_header into 9 bytes failed: {:?}", what, e)))?;
+        let mut hu = [0xA5u8; 9];
+        let nu = w.write_header_unchecked(&mut hu);
+        let want = [(ty >> 8) as u8, ty as u8, (value.len() >> 8) as u8, value.len() as u8, 0xA5, 0xA5, 0xA5, 0xA5, 0xA5];
+        ensure!(
+            n == 4 && nu == 4 && h == want && hu == want,
+            "c12-attr-write",
+            "{}: write_header returned {} and wrote {}, write_header_unchecked returned {} and wrote {}; expected 4 and {}",
+            what,
+            n,
+            hex(&h),
+            nu,
+            hex(&hu),
+            hex(&want)
+        );
+        for short in 0..4usize {
+            let mut d = [0xA5u8; 4];
+            let r = w.write_header(&mut d[..short]);
+            ensure!(
+                matches!(r, Err(StunWriteError::TooSmall { expected: 4, actual }) if actual == short) && d == [0xA5u8; 4],
+                "c12-attr-short",
+                "{}: write_header into {} bytes gave {:?} and left {}",
+                what,
+                short,
+                r,
+                hex(&d)
+            );
+        }
+    }
     let mut want = vec![];
     refstun::push_tlv(&mut want, ty, value, 0);
     let padded = 4 + pad4(value.len());
